@@ -20,6 +20,8 @@ def obligations(tier):
     trees = sk.construction_family(tier) + [s for s in tc.family(tier) if s["outcome"].ok and (not s["in_S"] or tier == "thorough")]
     if tier == "quick":
         trees = [s for s in trees if len(s["outcome"].nodes) <= 6]
+    else:
+        trees = [s for i, s in enumerate(trees) if not (s.get("in_S") and s["nheads"] == 4) or i % 2 == 0]
     o += tc.tree_obligations("tagging_allocator_trees", trees, {"P_ROUTE": 1, "TAGGING_ALLOC": 1}, funcs=F, weight_cap=24, max_cases=3, ptrcheck=True, timeout=900,
                              desc="tagging allocator (hidden 16-byte header with magic + live flag) installed via cbor_set_allocs: build or decode the tree, walk, size + serialize (no requests allowed), copy, serialize_alloc, release everything: "
                                   "every block released or resized carries a live tag, none is released twice, none reaches libc free/realloc directly (interior pointer => CBMC free/realloc precondition fails), nothing tagged stays live")
